@@ -48,6 +48,9 @@ class NeuronWorld(World):
                "tc_adapt": rc.choice([20.0, 50.0]), "inc": rc.choice([0.5, 2.0, 0.0]),
                "radd": rc.choice([0.0, 2.0, 5.0]), "rmul": rc.choice([0.0, 0.1, 0.5]), "rc_adapt": rc.choice([0.05, 0.1]),
                "vc": rc.choice([0.2, -0.1, 0.0]), "train": rc.random() < 0.5, "tseed": rc.randrange(1 << 30)}
+        # a quarter of the neurons reach their step time / batch size through the property setters before the run starts
+        via = stream(seed, "via")
+        cfg["via"] = {"dt0": via.choice(DTS), "B0": via.choice([1, 2, 4]), "order": via.choice(["dt_batchsz", "batchsz_dt"])} if via.random() < 0.25 else None
         ops = []
         T = ro.randint(6, 64 if tier == "thorough" else 40)
         regime = ro.choice(["mixed", "mixed", "supra", "near"])
@@ -147,8 +150,16 @@ class NeuronWorld(World):
         bshape = (B,) + shape
         lock = c["lock"]
         facts = {"cls": cls, "dt": dt, "refrac_k": c["refrac_k"], "lock": lock, "B": B}
+        via = c.get("via")
         with ctx.impl("neuron()", facts):
-            nrn = self._build(c)
+            if via:
+                nrn = self._build(dict(c, dt=via["dt0"], B=via["B0"]))
+                for a in via["order"].split("_"):
+                    setattr(nrn, a, dt if a == "dt" else B)
+                nrn.clear()
+                ctx.fault("configured_through_setters")
+            else:
+                nrn = self._build(c)
         nrn.train(c["train"])
         adaptive_thr = cls in ("ALIF", "GLIF2")
         adaptive_cur = cls in ("Izhikevich", "AdEx")
